@@ -228,6 +228,9 @@ type Options struct {
 	// reported only if this does not return within 120 s either, so a starved worker is never
 	// mistaken for a non-terminating call.
 	HangRecheck func(input string)
+	// StopAfter > 0: abandon the exploration once more than this many cases were run (used only
+	// for counting the size of a space; the result then has Exhaustive=false).
+	StopAfter int64
 }
 
 // Budget is a process-wide stop flag set when the internal deadline is hit.
@@ -251,6 +254,8 @@ func Explore(opt Options, body func(*Ctx)) *Stats {
 		workers[i] = newWorker(i, opt.Space)
 	}
 	var incomplete atomic.Bool
+	var ran atomic.Int64
+	over := func() bool { return opt.StopAfter > 0 && ran.Load() > opt.StopAfter }
 	var wg sync.WaitGroup
 	done := make(chan struct{})
 
@@ -315,11 +320,11 @@ func Explore(opt Options, body func(*Ctx)) *Stats {
 		go func() {
 			defer wg.Done()
 			for prefix := range items {
-				if stopped.Load() {
+				if stopped.Load() || over() {
 					incomplete.Store(true)
 					continue
 				}
-				if !exploreSeq(opt, w, body, prefix) {
+				if !exploreSeq(opt, w, body, prefix, &ran) {
 					incomplete.Store(true)
 				}
 			}
@@ -333,10 +338,11 @@ func Explore(opt Options, body func(*Ctx)) *Stats {
 			items <- prefix
 			return
 		}
-		if stopped.Load() {
+		if stopped.Load() || over() {
 			incomplete.Store(true)
 			return
 		}
+		ran.Add(1)
 		c := runOne(coord, body, prefix)
 		for i := len(c.choices) - 1; i >= len(prefix); i-- {
 			if !c.free[i] && opt.MaxDev >= 0 && c.cost+1 > opt.MaxDev {
@@ -435,7 +441,7 @@ func runOne(w *worker, body func(*Ctx), prefix []int) *Ctx {
 }
 
 // exploreSeq explores the whole subtree below prefix sequentially.
-func exploreSeq(opt Options, w *worker, body func(*Ctx), prefix []int) bool {
+func exploreSeq(opt Options, w *worker, body func(*Ctx), prefix []int, ran *atomic.Int64) bool {
 	type frame struct{ prefix []int }
 	stack := [][]int{prefix}
 	n := 0
@@ -443,8 +449,10 @@ func exploreSeq(opt Options, w *worker, body func(*Ctx), prefix []int) bool {
 		p := stack[len(stack)-1]
 		stack = stack[:len(stack)-1]
 		n++
-		if n&1023 == 0 && stopped.Load() {
-			return false
+		if n&255 == 0 {
+			if stopped.Load() || opt.StopAfter > 0 && ran.Add(256) > opt.StopAfter {
+				return false
+			}
 		}
 		c := runOne(w, body, p)
 		if opt.MaxDev >= 0 && c.cost > opt.MaxDev {
